@@ -180,6 +180,11 @@ class Gen:
                 fv = self.operand("I", depth)
             return {"call": "ite", "args": [self.operand("B", depth), tv, fv], "t": "I"}
         if fam == "tobits":
+            if r.random() < 0.25:
+                # recomposition of arbitrary secret integers (the classmethod does not require 0/1 entries)
+                return {"call": "from_bits_raw", "args": [self.operand(r.choice(["I", "B"]), depth),
+                                                          self.operand(r.choice(["I", "B"]), depth),
+                                                          self.operand("I", depth)], "t": "I"}
             n = None if r.random() < 0.6 else r.randrange(1, self.b + 3)
             return {"call": "bits_roundtrip", "args": [self.operand("I", depth)], "n": n, "t": "I"}
         if fam == "aget":
@@ -475,7 +480,7 @@ class CodeGen:
     def var(self, t, n):
         c = self.counts[t]
         if c == 0:
-            return {"I": "PrivVal(0)", "B": "PrivValBool(0)", "F": "PrivValFxp(0.0)", "A": "Array([PrivVal(0)])"}[t]
+            return {"I": "PrivVal(0)", "B": "PrivValBool(0)", "F": "PrivValFxp(0.0)", "A": "Array([0])"}[t]     # (allocation-free: an inline allocation would look like a hint wire)
         return "v%s%d" % (t, n % c)
 
     def new_var(self, t):
@@ -512,6 +517,8 @@ class CodeGen:
         if c == "rawcond":
             # a raw 0/1 secret integer carrying a boolean's value
             return "(%s + 0)" % self.ex(e["args"][0])
+        if c == "from_bits_raw":
+            return "(LinComb.from_bits([%s]) + __zero__)" % ", ".join(self.ex(x) for x in e["args"])
         if c == "bits_roundtrip":
             n = e.get("n")
             return "LinComb.from_bits(%s.to_bits(%s))" % (self.ex(e["args"][0]), "" if n is None else repr(n))
@@ -611,6 +618,10 @@ class CodeGen:
     def st_set_ie(self, s):
         self.emit("__set_ie__(%r)" % bool(s["value"]))
         self.step({"kind": "set_ie"})
+
+    def st_bulk_priv(self, s):
+        self.emit("for _k in range(%d): PrivVal(_k & 7)" % s["n"])
+        self.step({"kind": "bulk_priv"})
 
     def st_checkpoint_prove(self, s):
         self.emit("__prove__()")
@@ -738,6 +749,15 @@ class CodeGen:
             src = "Array([%s])" % ", ".join(self.ex(x) for x in s["els"])
         self.emit("%s = %s" % (nm, src))
         self.step({"kind": "array", "var": nm})
+
+    def st_aderive(self, s):
+        src_arr = self.var("A", s["arr"])
+        nm = self.new_var("A")
+        k = repr(s["k"])
+        src = {"add": "%s + %s" % (src_arr, k), "radd": "%s + %s" % (k, src_arr), "mul": "%s * %s" % (src_arr, k),
+               "rmul": "%s * %s" % (k, src_arr)}[s["how"]]
+        self.emit("%s = %s" % (nm, src))
+        self.step({"kind": "aderive", "var": nm, "desc": {"op": "array_" + s["how"]}})
 
     def st_aset(self, s):
         ix = s["ix"]
@@ -949,6 +969,8 @@ class CodeGen:
     def snark_leaf_arg(self, v):
         if "ref" in v:
             return self.var(v["t"], v["ref"])
+        if v.get("enum"):
+            return "__E__.%s" % v["enum"]        # an int subclass (IntEnum member): still a numeric argument
         return repr(v["k"])
 
     def snark_leaf_ret(self, v):
@@ -1085,6 +1107,11 @@ class CodeGen:
 
     # -- whole plan
     def generate(self):
+        in_fn = bool(self.plan.get("in_function"))
+        if in_fn:
+            # the whole program lives in a function with its own BranchingValues and is called twice
+            self.emit("def _prog(__inputs__):")
+            self.ind += 1
         if self.plan.get("blocks") and self.mode != "native":
             self.emit("_ = BranchingValues()")
         if self.plan.get("subqaps"):
@@ -1107,6 +1134,14 @@ class CodeGen:
         self.step({"kind": "inputs"})
         for s in self.plan["body"]:
             self.st(s)
+        if in_fn:
+            if self.mode == "native":
+                self.emit("__ret__({k[2:]: v for k, v in locals().items() if k.startswith('T_')})")
+            else:
+                self.emit("__ret__(dict(_.vals))")
+            self.ind -= 1
+            self.emit("_prog(__inputs__)")
+            self.emit("_prog(__alt__)")
         return "\n".join(self.lines) + "\n"
 
 
